@@ -329,11 +329,47 @@ theorem parseRequiredH_acct (S : Schema) (σ : Nat → Bool) (fuel : Nat) (f : F
       simp only [hft, hw2, Bool.false_eq_true, if_false]
       refine ⟨?_, Or.inl ?_⟩ <;> split <;> first | rfl | (simpa [ownedVal] using a)
 
-/-- the schemas of this part: no embedded messages, no oneofs, repeated fields of scalar type -/
+/-- when `parse_required_member` fails, what it leaves in the member owns nothing (if the old value owned nothing) -/
+theorem parseRequiredH_fail_owned (S : Schema) (σ : Nat → Bool) (fuel : Nat) (f : FieldDesc) (sm : Scanned) (old : HVal) (mc : Bool)
+    (h : Heap) (hnm : f.type ≠ .message) (hold : ownedVal S old = [])
+    (hfail : (parseRequiredH S σ fuel f sm old mc h).1 = false) :
+    ownedVal S (parseRequiredH S σ fuel f sm old mc h).2.1 = [] := by
+  by_cases hw : (!wtOk f.type sm.wt) = true
+  · have : parseRequiredH S σ fuel f sm old mc h = (false, old, h) := by unfold parseRequiredH; simp [hw]
+    rw [this]; exact hold
+  · have hw' : (!wtOk f.type sm.wt) = false := by simpa using hw
+    cases hft : f.type with
+    | message => exact absurd hft hnm
+    | string =>
+      rw [parseRequiredH_string S σ fuel f sm old mc h hw' hft] at hfail ⊢
+      cases hal : (relStr old mc h).alloc σ ((sm.data.drop sm.prefLen).length + 1) with
+      | mk oid h2 =>
+        simp only [hal] at hfail ⊢
+        cases oid with
+        | none => rfl
+        | some id => simp at hfail
+    | bytes =>
+      rw [parseRequiredH_bytes S σ fuel f sm old mc h hw' hft] at hfail ⊢
+      split at hfail
+      · rename_i hpos
+        rw [if_pos hpos]
+        cases hal : (relBin old mc h).alloc σ (sm.data.drop sm.prefLen).length with
+        | mk oid h2 =>
+          simp only [hal] at hfail ⊢
+          cases oid with
+          | none => rfl
+          | some id => simp at hfail
+      · simp at hfail
+    | _ =>
+      unfold parseRequiredH at hfail
+      have hw2 := hw'
+      rw [hft] at hw2
+      simp [hft, hw2] at hfail
+
+/-- the schemas of this part: no embedded messages, no oneofs -/
 structure FlatS (fields : List FieldDesc) : Prop where
   nomsg : ∀ f ∈ fields, f.type ≠ .message
   nogrp : ∀ f ∈ fields, f.group = none
-  repsc : ∀ f ∈ fields, f.label = .repeated → f.type ≠ .string ∧ f.type ≠ .bytes
 
 /-- per-slot well-formedness of the message under construction: singular members own memory the way their type's code
     path releases it; elements of repeated (scalar) fields own nothing -/
@@ -343,7 +379,7 @@ def SlotsOk (S : Schema) (fields : List FieldDesc) (slots : List HSlot) : Prop :
     match hgetSlot slots i with
     | .one _ v => (fields.getD i default).label ≠ .repeated ∧ OwnOk S (fields.getD i default) v
     | .rep _ none => (fields.getD i default).label = .repeated
-    | .rep _ (some (_, l)) => (fields.getD i default).label = .repeated ∧ ownedVals S l = []
+    | .rep _ (some _) => (fields.getD i default).label = .repeated
 
 theorem ownedVals_append (S : Schema) : ∀ (a b : List HVal), ownedVals S (a ++ b) = ownedVals S a ++ ownedVals S b
   | [], b => by simp [ownedVals]
@@ -372,7 +408,7 @@ theorem slotsOk_set (S : Schema) (fields : List FieldDesc) (slots : List HSlot) 
     (hs : match s with
       | .one _ v => (fields.getD i default).label ≠ .repeated ∧ OwnOk S (fields.getD i default) v
       | .rep _ none => (fields.getD i default).label = .repeated
-      | .rep _ (some (_, l)) => (fields.getD i default).label = .repeated ∧ ownedVals S l = []) :
+      | .rep _ (some _) => (fields.getD i default).label = .repeated) :
     SlotsOk S fields (hsetSlot slots i s) := by
   refine ⟨by simp [hsetSlot, h.1], ?_⟩
   intro j hj
@@ -385,6 +421,21 @@ theorem slotsOk_set (S : Schema) (fields : List FieldDesc) (slots : List HSlot) 
 
 theorem getD_mem' (fields : List FieldDesc) (i : Nat) (hi : i < fields.length) : fields.getD i default ∈ fields := by
   rw [getD_eq_getElem?_getD, getElem?_eq_getElem hi]; exact getElem_mem hi
+
+/-- once a repeated field has its array, it keeps it -/
+def ArrMono (a b : List HSlot) : Prop :=
+  ∀ j, (∃ n p, hgetSlot a j = .rep n (some p)) → ∃ n p, hgetSlot b j = .rep n (some p)
+
+theorem arrMono_refl (a : List HSlot) : ArrMono a a := fun _ h => h
+
+theorem arrMono_trans {a b c : List HSlot} (h1 : ArrMono a b) (h2 : ArrMono b c) : ArrMono a c := fun j h => h2 j (h1 j h)
+
+theorem arrMono_set (slots : List HSlot) (i : Nat) (hil : i < slots.length) (s2 : HSlot)
+    (h : (∃ n p, hgetSlot slots i = .rep n (some p)) → ∃ n p, s2 = .rep n (some p)) : ArrMono slots (hsetSlot slots i s2) := by
+  intro j hj
+  by_cases hji : j = i
+  · subst hji; rw [hgetSlot_set_eq _ _ _ hil]; exact h hj
+  · rw [hgetSlot_set_ne _ _ _ _ (fun e => hji e.symm)]; exact hj
 
 theorem ownedSlot_one (S : Schema) (f : FieldDesc) (hg : f.group = none) (q : Nat) (v : HVal) :
     ownedSlot S f (.one q v) = ownedVal S v := by
@@ -401,7 +452,9 @@ theorem singular_step (S : Schema) (σ : Nat → Bool) (fuel ty : Nat) (hfl : Fl
         (parseRequiredH S σ fuel ((S.msg ty).fields.getD i default) sm (hgetSlot slots i).v true h).2.1)) ∧
     Acct (parseRequiredH S σ fuel ((S.msg ty).fields.getD i default) sm (hgetSlot slots i).v true h).2.2
       (ownedMsg S (.mk ty id (hsetSlot slots i (.one q2
-        (parseRequiredH S σ fuel ((S.msg ty).fields.getD i default) sm (hgetSlot slots i).v true h).2.1)) tbl unk) ++ R) := by
+        (parseRequiredH S σ fuel ((S.msg ty).fields.getD i default) sm (hgetSlot slots i).v true h).2.1)) tbl unk) ++ R) ∧
+    ArrMono slots (hsetSlot slots i (.one q2
+        (parseRequiredH S σ fuel ((S.msg ty).fields.getD i default) sm (hgetSlot slots i).v true h).2.1)) := by
   have hfi := getD_mem' _ i hi
   have hnm := hfl.nomsg _ hfi
   have hng := hfl.nogrp _ hfi
@@ -416,8 +469,10 @@ theorem singular_step (S : Schema) (σ : Nat → Bool) (fuel ty : Nat) (hfl : Fl
     rw [hs] at hsl
     cases arr with
     | none => exact absurd hsl hl
-    | some p => exact absurd hsl.1 hl
+    | some p => exact absurd hsl hl
   | one q0 v0 =>
+    have hmono : ∀ s2, ArrMono slots (hsetSlot slots i s2) :=
+      fun s2 => arrMono_set slots i hil s2 (fun ⟨n, p, hh⟩ => by rw [hs] at hh; cases hh)
     rw [hs] at hsl hown0
     rw [ownedSlot_one S _ hng] at hown0
     simp only [HSlot.v]
@@ -426,7 +481,7 @@ theorem singular_step (S : Schema) (σ : Nat → Bool) (fuel ty : Nat) (hfl : Fl
       rw [← append_assoc]
       exact Perm.append_right R hown0
     obtain ⟨a2, hok2⟩ := parseRequiredH_acct S σ fuel _ sm v0 true hnm hsl.2 (fun hc => by cases hc) a1
-    refine ⟨slotsOk_set S _ slots hok i hi _ ⟨hl, hok2⟩, ?_⟩
+    refine ⟨slotsOk_set S _ slots hok i hi _ ⟨hl, hok2⟩, ?_, hmono _⟩
     refine acct_perm a2 ?_
     have hnew := hX (.one q2 (parseRequiredH S σ fuel ((S.msg ty).fields.getD i default) sm v0 true h).2.1) tbl unk
     rw [ownedSlot_one S _ hng] at hnew
@@ -438,12 +493,15 @@ theorem singular_step (S : Schema) (σ : Nat → Bool) (fuel ty : Nat) (hfl : Fl
 theorem parseMemberH_acct (S : Schema) (σ : Nat → Bool) (fuel ty : Nat) (hfl : FlatS (S.msg ty).fields) (sm : Scanned)
     (hsm : ∀ i, sm.fidx = some i → i < (S.msg ty).fields.length)
     (id : Nat) (slots : List HSlot) (tbl : Option Nat) (unk : List (Unk × Option Nat))
-    (hok : SlotsOk S (S.msg ty).fields slots) {h : Heap} {R : List Nat}
+    (hok : SlotsOk S (S.msg ty).fields slots)
+    (harr : ∀ i, sm.fidx = some i → ((S.msg ty).fields.getD i default).label = .repeated →
+      usesPackedPath ((S.msg ty).fields.getD i default) sm.wt = false → ∃ n p, hgetSlot slots i = .rep n (some p))
+    {h : Heap} {R : List Nat}
     (a : Acct h (ownedMsg S (.mk ty id slots tbl unk) ++ R)) :
     ∃ slots2 unk2, (parseMemberH S σ fuel (S.msg ty).fields sm (.mk ty id slots tbl unk) h).2.1 = .mk ty id slots2 tbl unk2 ∧
       SlotsOk S (S.msg ty).fields slots2 ∧
       Acct (parseMemberH S σ fuel (S.msg ty).fields sm (.mk ty id slots tbl unk) h).2.2
-        (ownedMsg S (.mk ty id slots2 tbl unk2) ++ R) := by
+        (ownedMsg S (.mk ty id slots2 tbl unk2) ++ R) ∧ ArrMono slots slots2 := by
   unfold parseMemberH
   cases hf : sm.fidx with
   | none =>
@@ -453,11 +511,11 @@ theorem parseMemberH_acct (S : Schema) (σ : Nat → Bool) (fuel ty : Nat) (hfl 
     | mk oid h2 =>
       cases oid with
       | none =>
-        refine ⟨slots, _, rfl, hok, ?_⟩
+        refine ⟨slots, _, rfl, hok, ?_, arrMono_refl _⟩
         have := (ha h2).2 hal
         simpa [ownedMsg, filterMap_append] using this
       | some d =>
-        refine ⟨slots, _, rfl, hok, ?_⟩
+        refine ⟨slots, _, rfl, hok, ?_, arrMono_refl _⟩
         have := (ha h2).1 d hal
         refine acct_perm this ?_
         simp only [ownedMsg, filterMap_append, filterMap_cons, filterMap_nil, append_assoc]
@@ -479,99 +537,109 @@ theorem parseMemberH_acct (S : Schema) (σ : Nat → Bool) (fuel ty : Nat) (hfl 
     | required =>
       simp only
       have := singular_step S σ fuel ty hfl sm i hi (by rw [hlab]; simp) id slots tbl unk hok a (hgetSlot slots i).q
-      exact ⟨_, unk, rfl, this.1, this.2⟩
+      exact ⟨_, unk, rfl, this.1, this.2.1, this.2.2⟩
     | optional =>
       simp only [hng]
       have := singular_step S σ fuel ty hfl sm i hi (by rw [hlab]; simp) id slots tbl unk hok a
         (if ((parseRequiredH S σ fuel ((S.msg ty).fields.getD i default) sm (hgetSlot slots i).v true h).1 &&
             ((S.msg ty).fields.getD i default).hasQ) = true then 1 else (hgetSlot slots i).q)
-      exact ⟨_, unk, rfl, this.1, this.2⟩
+      exact ⟨_, unk, rfl, this.1, this.2.1, this.2.2⟩
     | none =>
       simp only [hng]
       have := singular_step S σ fuel ty hfl sm i hi (by rw [hlab]; simp) id slots tbl unk hok a
         (if ((parseRequiredH S σ fuel ((S.msg ty).fields.getD i default) sm (hgetSlot slots i).v true h).1 &&
             ((S.msg ty).fields.getD i default).hasQ) = true then 1 else (hgetSlot slots i).q)
-      exact ⟨_, unk, rfl, this.1, this.2⟩
+      exact ⟨_, unk, rfl, this.1, this.2.1, this.2.2⟩
     | repeated =>
       simp only
-      have hrs := hfl.repsc _ hfi hlab
       cases hs : hgetSlot slots i with
-      | one q0 v0 => exact ⟨slots, unk, rfl, hok, a⟩
+      | one q0 v0 => exact ⟨slots, unk, rfl, hok, a, arrMono_refl _⟩
       | rep n arr =>
         rw [hs] at hsl hown0
         simp only
-        -- replacing the array contents by a longer list of scalars changes nothing in what is owned
-        have same : ∀ (arr2 : Option (Nat × List HVal)) (n2 : Nat),
-            ownedSlot S ((S.msg ty).fields.getD i default) (.rep n2 arr2) =
-              ownedSlot S ((S.msg ty).fields.getD i default) (.rep n arr) →
-            (match HSlot.rep n2 arr2 with
-              | .one _ v => ((S.msg ty).fields.getD i default).label ≠ .repeated ∧ OwnOk S ((S.msg ty).fields.getD i default) v
-              | .rep _ none => ((S.msg ty).fields.getD i default).label = .repeated
-              | .rep _ (some (_, l)) => ((S.msg ty).fields.getD i default).label = .repeated ∧ ownedVals S l = []) →
-            ∀ (h2 : Heap), Acct h2 (ownedMsg S (.mk ty id slots tbl unk) ++ R) →
+        -- the array gets a longer list of elements; `E` is what the new element(s) own
+        have grow : ∀ (arr2 : Option (Nat × List HVal)) (n2 : Nat) (E : List Nat),
+            (ownedSlot S ((S.msg ty).fields.getD i default) (.rep n2 arr2)).Perm
+              (E ++ ownedSlot S ((S.msg ty).fields.getD i default) (.rep n arr)) →
+            (arr.isSome = true → arr2.isSome = true) →
+            ∀ (h2 : Heap), Acct h2 (E ++ (ownedMsg S (.mk ty id slots tbl unk) ++ R)) →
             SlotsOk S (S.msg ty).fields (hsetSlot slots i (.rep n2 arr2)) ∧
-            Acct h2 (ownedMsg S (.mk ty id (hsetSlot slots i (.rep n2 arr2)) tbl unk) ++ R) := by
-          intro arr2 n2 hsame hshape h2 a2
-          refine ⟨slotsOk_set S _ slots hok i hi _ hshape, acct_perm a2 ?_⟩
+            Acct h2 (ownedMsg S (.mk ty id (hsetSlot slots i (.rep n2 arr2)) tbl unk) ++ R) ∧
+            ArrMono slots (hsetSlot slots i (.rep n2 arr2)) := by
+          intro arr2 n2 E hperm hsm2 h2 a2
+          refine ⟨slotsOk_set S _ slots hok i hi _ (by cases arr2 <;> exact hlab), acct_perm a2 ?_,
+            arrMono_set slots i hil _ (fun ⟨n0, p0, hh⟩ => by
+              rw [hs] at hh
+              simp only [HSlot.rep.injEq] at hh
+              have : arr2.isSome = true := hsm2 (by rw [hh.2]; rfl)
+              cases arr2 with
+              | none => cases this
+              | some p2 => exact ⟨n2, p2, rfl⟩)⟩
           have hnew := hX (.rep n2 arr2) tbl unk
-          rw [hsame] at hnew
-          exact Perm.append_right R (hown0.trans hnew.symm)
+          rw [← append_assoc]
+          refine Perm.append_right R ?_
+          -- E ++ owned m  ~  E ++ (slot ++ Rest)  ~  (E ++ slot) ++ Rest  ~  slot' ++ Rest  ~  owned m'
+          refine (Perm.append_left E hown0).trans ?_
+          rw [← append_assoc]
+          exact (Perm.append_right _ hperm.symm).trans hnew.symm
         by_cases hpk : usesPackedPath ((S.msg ty).fields.getD i default) sm.wt = true
         · simp only [hpk, if_true]
           cases hpp : parsePacked ((S.msg ty).fields.getD i default).type (drop sm.prefLen sm.data) with
-          | none => exact ⟨slots, unk, rfl, hok, a⟩
+          | none => exact ⟨slots, unk, rfl, hok, a, arrMono_refl _⟩
           | some vs =>
             simp only
             obtain ⟨_, _, _, hokv⟩ := Pbc.Props.C06.parsePacked_ok _ _ _ hpp
             have hlift := ownedVals_lift S _ vs hokv
             cases arr with
             | none =>
-              have := same none (n + vs.length) rfl hlab h a
-              exact ⟨_, unk, rfl, this.1, this.2⟩
+              have := grow none (n + vs.length) [] (by simp only [ownedSlot, nil_append]; exact Perm.refl _) (fun hh => by cases hh) h (by simpa using a)
+              exact ⟨_, unk, rfl, this.1, this.2.1, this.2.2⟩
             | some p =>
               obtain ⟨aid, l⟩ := p
-              have hl0 : ownedVals S l = [] := hsl.2
-              have := same (some (aid, l ++ map liftVal vs)) (n + vs.length)
-                (by simp [ownedSlot, ownedVals_append, hl0, hlift]) ⟨hlab, by rw [ownedVals_append, hl0, hlift]; rfl⟩ h a
-              exact ⟨_, unk, rfl, this.1, this.2⟩
+              have := grow (some (aid, l ++ map liftVal vs)) (n + vs.length) []
+                (by simp only [ownedSlot, ownedVals_append, hlift, append_nil, nil_append]; exact Perm.refl _) (fun _ => rfl) h (by simpa using a)
+              exact ⟨_, unk, rfl, this.1, this.2.1, this.2.2⟩
         · simp only [hpk, Bool.false_eq_true, if_false]
+          have hpk' : usesPackedPath ((S.msg ty).fields.getD i default) sm.wt = false := by simpa using hpk
+          obtain ⟨n', p', hsome⟩ := harr i hf hlab hpk'
+          rw [hs] at hsome
+          simp only [HSlot.rep.injEq] at hsome
+          obtain ⟨_, harr2⟩ := hsome
+          subst harr2
+          obtain ⟨aid, l⟩ := p'
           have a0 : Acct h (ownedVal S HVal.zero ++ (ownedMsg S (.mk ty id slots tbl unk) ++ R)) := by simpa [ownedVal] using a
-          obtain ⟨a2, hok2⟩ := parseRequiredH_acct S σ fuel _ sm .zero false hnm (Or.inl rfl) (fun _ => rfl) a0
-          have hv0 : ownedVal S (parseRequiredH S σ fuel ((S.msg ty).fields.getD i default) sm HVal.zero false h).2.1 = [] := by
-            rcases hok2 with h0 | ⟨hs', _⟩ | ⟨hb', _⟩
-            · exact h0
-            · exact absurd hs' hrs.1
-            · exact absurd hb' hrs.2
-          rw [hv0] at a2
-          have a3 : Acct (parseRequiredH S σ fuel ((S.msg ty).fields.getD i default) sm HVal.zero false h).2.2
-              (ownedMsg S (.mk ty id slots tbl unk) ++ R) := by simpa using a2
+          obtain ⟨a2, _⟩ := parseRequiredH_acct S σ fuel _ sm .zero false hnm (Or.inl rfl) (fun _ => rfl) a0
           split
-          · cases arr with
-            | none =>
-              have := same none (n + 1) rfl hlab _ a3
-              exact ⟨_, unk, rfl, this.1, this.2⟩
-            | some p =>
-              obtain ⟨aid, l⟩ := p
-              have hl0 : ownedVals S l = [] := hsl.2
-              have := same (some (aid, l ++ [(parseRequiredH S σ fuel ((S.msg ty).fields.getD i default) sm HVal.zero false h).2.1]))
-                (n + 1) (by simp only [ownedSlot, ownedVals_append, ownedVals, hl0, hv0, append_nil, nil_append])
-                ⟨hlab, by rw [ownedVals_append, hl0]; simp only [ownedVals, hv0, append_nil, nil_append]⟩ _ a3
-              exact ⟨_, unk, rfl, this.1, this.2⟩
-          · exact ⟨slots, unk, rfl, hok, a3⟩
+          · have := grow (some (aid, l ++ [(parseRequiredH S σ fuel ((S.msg ty).fields.getD i default) sm HVal.zero false h).2.1]))
+              (n + 1) (ownedVal S (parseRequiredH S σ fuel ((S.msg ty).fields.getD i default) sm HVal.zero false h).2.1)
+              (by
+                simp only [ownedSlot, ownedVals_append, ownedVals, append_nil, append_assoc]
+                exact perm_mid (ownedVals S l) _ [aid]) (fun _ => rfl) _ a2
+            exact ⟨_, unk, rfl, this.1, this.2.1, this.2.2⟩
+          · -- the element that failed to parse owns nothing (a refused allocation leaves a NULL pointer)
+            rename_i hfail
+            have hv0 : ownedVal S (parseRequiredH S σ fuel ((S.msg ty).fields.getD i default) sm HVal.zero false h).2.1 = [] :=
+              parseRequiredH_fail_owned S σ fuel _ sm .zero false h hnm rfl (by simpa using hfail)
+            rw [hv0] at a2
+            exact ⟨slots, unk, rfl, hok, by simpa using a2, arrMono_refl _⟩
 
 /-- **the parse pass** (flat schemas) -/
 theorem parseAllH_acct (S : Schema) (σ : Nat → Bool) (fuel ty : Nat) (hfl : FlatS (S.msg ty).fields) :
     ∀ (l : List Scanned), (∀ sm ∈ l, ∀ i, sm.fidx = some i → i < (S.msg ty).fields.length) →
     ∀ (id : Nat) (slots : List HSlot) (tbl : Option Nat) (unk : List (Unk × Option Nat)) (h : Heap) (R : List Nat),
-    SlotsOk S (S.msg ty).fields slots → Acct h (ownedMsg S (.mk ty id slots tbl unk) ++ R) →
+    SlotsOk S (S.msg ty).fields slots →
+    (∀ sm ∈ l, ∀ i, sm.fidx = some i → ((S.msg ty).fields.getD i default).label = .repeated →
+      usesPackedPath ((S.msg ty).fields.getD i default) sm.wt = false → ∃ n p, hgetSlot slots i = .rep n (some p)) →
+    Acct h (ownedMsg S (.mk ty id slots tbl unk) ++ R) →
     ∃ slots2 unk2, (parseAllH S σ fuel (S.msg ty).fields l (.mk ty id slots tbl unk) h).2.1 = .mk ty id slots2 tbl unk2 ∧
       SlotsOk S (S.msg ty).fields slots2 ∧
       Acct (parseAllH S σ fuel (S.msg ty).fields l (.mk ty id slots tbl unk) h).2.2 (ownedMsg S (.mk ty id slots2 tbl unk2) ++ R)
-  | [], _, id, slots, tbl, unk, h, R, hok, a => by
+  | [], _, id, slots, tbl, unk, h, R, hok, _, a => by
     simp only [parseAllH]
     exact ⟨slots, unk, rfl, hok, a⟩
-  | sm :: rest, hall, id, slots, tbl, unk, h, R, hok, a => by
-    obtain ⟨s2, u2, he, hok2, a2⟩ := parseMemberH_acct S σ fuel ty hfl sm (hall sm (mem_cons_self ..)) id slots tbl unk hok a
+  | sm :: rest, hall, id, slots, tbl, unk, h, R, hok, harr, a => by
+    obtain ⟨s2, u2, he, hok2, a2, hmono⟩ := parseMemberH_acct S σ fuel ty hfl sm (hall sm (mem_cons_self ..)) id slots tbl unk hok
+      (harr sm (mem_cons_self ..)) a
     simp only [parseAllH]
     generalize hr : parseMemberH S σ fuel (S.msg ty).fields sm (.mk ty id slots tbl unk) h = r at he a2
     obtain ⟨ok, m', h'⟩ := r
@@ -579,7 +647,9 @@ theorem parseAllH_acct (S : Schema) (σ : Nat → Bool) (fuel ty : Nat) (hfl : F
     subst he
     cases ok with
     | false => exact ⟨s2, u2, rfl, hok2, a2⟩
-    | true => exact parseAllH_acct S σ fuel ty hfl rest (fun x hx => hall x (mem_cons_of_mem _ hx)) id s2 tbl u2 h' R hok2 a2
+    | true =>
+      exact parseAllH_acct S σ fuel ty hfl rest (fun x hx => hall x (mem_cons_of_mem _ hx)) id s2 tbl u2 h' R hok2
+        (fun x hx i h1 h2 h3 => hmono i (harr x (mem_cons_of_mem _ hx) i h1 h2 h3)) a2
 
 /-! ### the scan pass: slabs -/
 theorem scanLoopH_acct (σ : Nat → Bool) (fields : List FieldDesc) : ∀ (fuel : Nat) (b : Bytes) (st : ScanState) (slabs : List Nat)
@@ -647,7 +717,7 @@ def InitOk (S : Schema) (f : FieldDesc) : HSlot → Prop
 def SOk (S : Schema) (f : FieldDesc) : HSlot → Prop
   | .one _ v => f.label ≠ .repeated ∧ OwnOk S f v
   | .rep _ none => f.label = .repeated
-  | .rep _ (some (_, l)) => f.label = .repeated ∧ ownedVals S l = []
+  | .rep _ (some _) => f.label = .repeated
 
 theorem sok_of_init (S : Schema) (f : FieldDesc) (s : HSlot) (h : InitOk S f s) : SOk S f s := by
   cases s with
@@ -716,7 +786,7 @@ theorem allocArrays_acct (S : Schema) (σ : Nat → Bool) (fields : List FieldDe
             simp only
             have a1 := (ha h1).1 id hal
             obtain ⟨hf2, a2⟩ := allocArrays_acct S σ fields counts (i + 1) fs ss h1 (id :: R) hrest a1
-            refine ⟨All2.cons ⟨hlab, rfl⟩ hf2, ?_⟩
+            refine ⟨All2.cons hlab hf2, ?_⟩
             simp only [ownedSlots, ownedSlot, ownedVals, nil_append]
             refine acct_perm a2 ?_
             have := perm_mid (ownedSlots S fs (allocArrays σ fields counts (i + 1) fs ss h1).2.1) [id] R
@@ -807,7 +877,7 @@ theorem all2_slotsOk (S : Schema) (fields : List FieldDesc) (slots : List HSlot)
   | one q v => rw [hs] at this; exact this
   | rep n arr => cases arr with
     | none => rw [hs] at this; exact this
-    | some p => obtain ⟨a, l⟩ := p; rw [hs] at this; exact this
+    | some p => rw [hs] at this; exact this
 
 def freeBmF (bm : Option Nat) (h : Heap) : Heap := match bm with | some i => h.free i | none => h
 
@@ -927,6 +997,9 @@ theorem tailH2_acct (S : Schema) (σ : Nat → Bool) (fuel t rv : Nat) (hfl : Fl
     (slabs : List Nat) (st : ScanState) (hst : ∀ sm ∈ st.acc, ∀ i, sm.fidx = some i → i < (S.msg t).fields.length)
     (firstBad : Option Nat) (okA : Bool) (slots1 : List HSlot) (h4 : Heap) (L : List Nat)
     (hall2 : All2 (SOk S) (S.msg t).fields slots1)
+    (harr1 : okA = true → firstBad.isSome = false → ∀ sm ∈ st.acc, ∀ i, sm.fidx = some i →
+      ((S.msg t).fields.getD i default).label = .repeated →
+      usesPackedPath ((S.msg t).fields.getD i default) sm.wt = false → ∃ n p, hgetSlot slots1 i = .rep n (some p))
     (a4 : Acct h4 (ownedSlots S (S.msg t).fields slots1 ++ (slabs ++ (bm.toList ++ (rv :: L))))) :
     match tailH2 S σ fuel t rv bm slabs st firstBad okA slots1 h4 with
     | (none, h') => Acct h' L
@@ -969,7 +1042,8 @@ theorem tailH2_acct (S : Schema) (σ : Nat → Bool) (fuel t rv : Nat) (hfl : Fl
           -- tbl ++ (O ++ ([rv] ++ X))  ~  O ++ (tbl ++ ([rv] ++ X))
           exact perm_mid tbl.toList _ _
         obtain ⟨s2, u2, he, _, a6⟩ := parseAllH_acct S σ fuel t hfl st.acc.reverse
-          (fun sm hsm => hst sm (by simpa using hsm)) rv slots1 tbl [] h5 _ hok1 hu
+          (fun sm hsm => hst sm (by simpa using hsm)) rv slots1 tbl [] h5 _ hok1
+          (fun sm hsm => harr1 (by simpa using hA) (by simpa using hB) sm (by simpa using hsm)) hu
         generalize hp : parseAllH S σ fuel (S.msg t).fields st.acc.reverse (.mk t rv slots1 tbl []) h5 = pr at he a6
         obtain ⟨ok, m3, h6⟩ := pr
         simp only at he a6
@@ -983,6 +1057,155 @@ theorem tailH2_acct (S : Schema) (σ : Nat → Bool) (fuel t rv : Nat) (hfl : Fl
             have := perm_mid (ownedMsg S (.mk t rv s2 tbl u2)) (slabs ++ bm.toList) L
             simpa [append_assoc] using this
           exact freeBm_acct bm (acct_frees slabs this)
+
+/-! ### every unpacked element of a repeated field finds its array -/
+
+theorem foldl_add_ge (l : List (Nat × Nat)) : ∀ (init : Nat), init ≤ l.foldl (fun a c => a + c.2) init := by
+  induction l with
+  | nil => intro init; exact Nat.le_refl _
+  | cons x xs ih => intro init; simp only [foldl_cons]; exact Nat.le_trans (Nat.le_add_right _ _) (ih _)
+
+theorem foldl_add_mem (l : List (Nat × Nat)) (x : Nat × Nat) (hx : x ∈ l) : ∀ (init : Nat),
+    init + x.2 ≤ l.foldl (fun a c => a + c.2) init := by
+  induction l with
+  | nil => simp at hx
+  | cons y ys ih =>
+    intro init
+    simp only [foldl_cons]
+    rcases mem_cons.1 hx with rfl | h
+    · exact foldl_add_ge ys _
+    · exact Nat.le_trans (by omega) (ih h (init + y.2))
+
+theorem allocArrays_some (S : Schema) (σ : Nat → Bool) (fields : List FieldDesc) (counts : List (Nat × Nat)) :
+    ∀ (i0 : Nat) (fs : List FieldDesc) (ss : List HSlot) (h : Heap), All2 (InitOk S) fs ss →
+    (allocArrays σ fields counts i0 fs ss h).1 = true →
+    ∀ j, j < fs.length → (fs.getD j default).label = .repeated → (i0 + j, 1) ∈ counts →
+    ∃ p, (allocArrays σ fields counts i0 fs ss h).2.1.getD j default = .rep 0 (some p)
+  | i0, [], [], h, _, _, j, hj, _, _ => by simp at hj
+  | i0, f :: fs, s :: ss, h, hfa, hok, j, hj, hlab, hmem => by
+    obtain ⟨hs, hrest⟩ := All2.cons_inv hfa
+    simp only [allocArrays] at hok ⊢
+    by_cases hrep : (f.label == .repeated) = true
+    · simp only [hrep, if_true] at hok ⊢
+      by_cases hn : ((counts.filter (fun c => c.1 == i0)).foldl (fun a c => a + c.2) 0 != 0) = true
+      · simp only [hn, if_true] at hok ⊢
+        cases hal : h.alloc σ (f.type.eltSize * (counts.filter (fun c => c.1 == i0)).foldl (fun a c => a + c.2) 0) with
+        | mk oid h1 =>
+          simp only [hal] at hok ⊢
+          cases oid with
+          | none => simp at hok
+          | some id =>
+            simp only at hok ⊢
+            cases j with
+            | zero => exact ⟨_, rfl⟩
+            | succ j =>
+              have := allocArrays_some S σ fields counts (i0 + 1) fs ss h1 hrest hok j (by simpa using hj)
+                (by simpa using hlab) (by rw [show i0 + 1 + j = i0 + (j + 1) by omega]; exact hmem)
+              simpa using this
+      · simp only [hn, Bool.false_eq_true, if_false] at hok ⊢
+        cases j with
+        | zero =>
+          exfalso
+          have hm : (i0, 1) ∈ counts.filter (fun c => c.1 == i0) := by
+            rw [mem_filter]; exact ⟨by simpa using hmem, by simp⟩
+          have := foldl_add_mem _ _ hm 0
+          simp only [bne_iff_ne, ne_eq, Decidable.not_not] at hn
+          omega
+        | succ j =>
+          have := allocArrays_some S σ fields counts (i0 + 1) fs ss h hrest hok j (by simpa using hj)
+            (by simpa using hlab) (by rw [show i0 + 1 + j = i0 + (j + 1) by omega]; exact hmem)
+          simpa using this
+    · simp only [hrep, Bool.false_eq_true, if_false] at hok ⊢
+      cases j with
+      | zero => simp only [getD_cons_zero] at hlab; rw [hlab] at hrep; exact absurd rfl hrep
+      | succ j =>
+        have := allocArrays_some S σ fields counts (i0 + 1) fs ss h hrest hok j (by simpa using hj)
+          (by simpa using hlab) (by rw [show i0 + 1 + j = i0 + (j + 1) by omega]; exact hmem)
+        simpa using this
+
+/-- the scan pass counts one element for every unpacked occurrence of a repeated field -/
+def CntInv (fields : List FieldDesc) (st : ScanState) : Prop :=
+  ∀ sm ∈ st.acc, ∀ i, sm.fidx = some i → (fields.getD i default).label = .repeated →
+    usesPackedPath (fields.getD i default) sm.wt = false → (i, 1) ∈ st.counts
+
+theorem scanStep_cnt (fields : List FieldDesc) (b b' : Bytes) (st st' : ScanState) (hi : CntInv fields st)
+    (hs : scanStep fields b st = some (b', st')) : CntInv fields st' := by
+  unfold scanStep at hs
+  cases hk : scanKey b with
+  | none => simp [hk] at hs
+  | some k =>
+    obtain ⟨used, tag, wt⟩ := k
+    simp only [hk] at hs
+    generalize resolveField fields st tag = rf at hs
+    obtain ⟨field, last, lastIdx, nu⟩ := rf
+    simp only at hs
+    cases hdl : delimit wt (b.drop used) with
+    | none => simp [hdl] at hs
+    | some lp =>
+      obtain ⟨len, pref⟩ := lp
+      simp only [hdl] at hs
+      split at hs
+      · cases hs
+      · split at hs
+        · cases hs
+        · rename_i counts hcnt
+          simp only [Option.some.injEq, Prod.mk.injEq] at hs
+          obtain ⟨_, hst⟩ := hs
+          subst hst
+          -- the counts only grow, and the new occurrence got its entry
+          have hsub : ∀ x, x ∈ st.counts → x ∈ counts := by
+            intro x hx
+            cases field with
+            | none => simp only [Option.some.injEq] at hcnt; subst hcnt; exact hx
+            | some i =>
+              simp only at hcnt
+              split at hcnt
+              · split at hcnt
+                · simp only [Option.map_eq_some_iff] at hcnt
+                  obtain ⟨c, _, rfl⟩ := hcnt
+                  exact mem_cons_of_mem _ hx
+                · simp only [Option.some.injEq] at hcnt; subst hcnt; exact mem_cons_of_mem _ hx
+              · simp only [Option.some.injEq] at hcnt; subst hcnt; exact hx
+          intro sm hsm i hfi hlab hpk
+          simp only [mem_cons] at hsm
+          rcases hsm with rfl | hsm
+          · simp only at hfi hpk
+            subst hfi
+            simp only at hcnt
+            have hl' : ((fields.getD i default).label == Label.repeated) = true := by rw [hlab]; rfl
+            simp only [hl', if_true, hpk, Bool.false_eq_true, if_false, Option.some.injEq] at hcnt
+            subst hcnt
+            exact mem_cons_self ..
+          · exact hsub _ (hi sm hsm i hfi hlab hpk)
+
+theorem scanLoopH_cnt (σ : Nat → Bool) (fields : List FieldDesc) :
+    ∀ (fuel : Nat) (b : Bytes) (st : ScanState) (slabs : List Nat) (h : Heap) (st' : ScanState),
+    CntInv fields st → (scanLoopH σ fields fuel b st slabs h).1 = some st' → CntInv fields st'
+  | 0, b, st, slabs, h, st', hi, hs => by
+    simp only [scanLoopH] at hs
+    split at hs
+    · cases hs; exact hi
+    · cases hs
+  | fuel+1, b, st, slabs, h, st', hi, hs => by
+    simp only [scanLoopH] at hs
+    split at hs
+    · cases hs; exact hi
+    · split at hs
+      · cases hal : h.alloc σ (sizeofScanned * 2 ^ (_ + 4)) with
+        | mk oid h1 =>
+          rw [hal] at hs
+          cases oid with
+          | none => cases hs
+          | some id =>
+            simp only at hs
+            split at hs
+            · cases hs
+            · rename_i b1 st1 hstep
+              exact scanLoopH_cnt σ fields fuel b1 st1 _ h1 st' (scanStep_cnt fields b b1 st st1 hi hstep) hs
+      · split at hs
+        · cases hs
+        · rename_i b1 st1 hstep
+          exact scanLoopH_cnt σ fields fuel b1 st1 _ h st' (scanStep_cnt fields b b1 st st1 hi hstep) hs
 
 /-- **C07 / C08 for messages without embedded messages and oneofs**: for EVERY input and EVERY refusal schedule σ of the
     allocator, after `protobuf_c_message_unpack` returns NULL exactly the blocks that were outstanding before are
@@ -1036,12 +1259,24 @@ theorem unpackMsgH_acct (S : Schema) (σ : Nat → Bool) (fuel t : Nat) (hfl : F
           have hok := hacc st (Pbc.Props.C06.scan0_acc (S.msg t).fields) rfl
           unfold tailH
           simp only
-          have hal2 := allocArrays_acct S σ (S.msg t).fields
-            (st.counts.filter (fun c => c.1 < ((List.range (S.msg t).fields.length).find? (fun i =>
+          have hcnt := scanLoopH_cnt σ (S.msg t).fields b.length b
+            ⟨if (S.msg t).fields.isEmpty then none else some 0, 0, [], [], [], 0⟩ [] h2 st (by intro sm hsm; simp at hsm)
+            (by rw [hsc])
+          generalize hfb : ((List.range (S.msg t).fields.length).find? (fun i =>
               ((S.msg t).fields.getD i default).label == .required && ((S.msg t).fields.getD i default).dflt == .none &&
-                !st.bitmap.contains i)).getD (S.msg t).fields.length))
+                !st.bitmap.contains i)) = firstBad
+          have hal2 := allocArrays_acct S σ (S.msg t).fields
+            (st.counts.filter (fun c => c.1 < firstBad.getD (S.msg t).fields.length))
             0 (S.msg t).fields ((initMsg S t).slots.map liftSlot) h3 _ (init_all2 S t) a3
-          exact tailH2_acct S σ fuel t rv hfl bm slabs st (fun sm hsm i hi => (hok.2 sm hsm).fsome i hi |>.1) _ _ _ _ L hal2.1 hal2.2
+          refine tailH2_acct S σ fuel t rv hfl bm slabs st (fun sm hsm i hi => (hok.2 sm hsm).fsome i hi |>.1) _ _ _ _ L hal2.1 ?_ hal2.2
+          intro hokA hnb sm hsm i hfi hlab hpk
+          have hnone : firstBad = none := by cases firstBad <;> simp_all
+          have hilt := ((hok.2 sm hsm).fsome i hfi).1
+          have hmem : (0 + i, 1) ∈ st.counts.filter (fun c => c.1 < firstBad.getD (S.msg t).fields.length) := by
+            rw [mem_filter, hnone]
+            exact ⟨by simpa using hcnt sm hsm i hfi hlab hpk, by simpa using hilt⟩
+          obtain ⟨p, hp⟩ := allocArrays_some S σ (S.msg t).fields _ 0 (S.msg t).fields _ h3 (init_all2 S t) hokA i hilt hlab hmem
+          exact ⟨0, p, hp⟩
 
 /-- top level, failure: nothing outstanding -/
 theorem unpack_fails_clean (S : Schema) (σ : Nat → Bool) (t : Nat) (hfl : FlatS (S.msg t).fields)
@@ -1073,6 +1308,6 @@ def exFlat : Schema := [{ name := "F", initGeneric := false, nGroups := 0, field
   { name := "x", id := 9, label := .optional, type := .int32, packed := false, group := none, sub := 0, dflt := .scalar 7, init := some 7 }] }]
 
 example : FlatS (exFlat.msg 0).fields ∧ Pbc.Props.C01.IdsDistinct (exFlat.msg 0).fields :=
-  ⟨⟨by decide, by decide, by decide⟩, by unfold Pbc.Props.C01.IdsDistinct; decide⟩
+  ⟨⟨by decide, by decide⟩, by unfold Pbc.Props.C01.IdsDistinct; decide⟩
 
 end Pbc.Props.C07
